@@ -21,13 +21,13 @@ CHECKS = {
         technique="Coq proof (induction on stream length, append-compositionality of decode) + extracted-model differential correspondence"),
 
     "C03": dict(
-        text=("24 theorems over every well-formed plan and every packet (Props/C03.v): the code's sort key is the property's "
+        text=("27 theorems over every well-formed plan and every packet (Props/C03.v): the code's sort key is the property's "
               "specificity order; first match in the descending list (last match ascending for pf) is a matching entry of maximal key; "
               "for nat, nft, tproxy and both pf rule shapes the modelled packet walk over the generated rules diverts TCP exactly when "
               "the most specific matching entry is an include (and the owner matches where implemented), DNS exactly for the configured "
               "name servers, other UDP only under tproxy+udp. Tied to /repo by comparing the argv / pf text the real setup_firewall emits "
-              "token for token with the model's printer and by walking sampled packets over the rules the real code emitted."),
-        note="modelled not verified: the kernel's iptables/nft/pf matching semantics (validated against real netfilter in a namespace in the thorough tier; pf cannot be validated here). Known finding F18 excluded exactly by c03_tproxy_dns_partial.",
+              "token for token with the model's printer and by walking sampled packets over the rules the real code emitted. Set-up over the session's own objects left by a killed earlier session with another plan yields the same verdicts as on a clean packet filter (c03_nft_stale_own_objects, c03_ipt_own_chains_emptied); the harness runs both sessions' real set-ups (the first cut after k commands) on the C04 kernel model and judges the later plan's oracle on the resulting state."),
+        note="modelled not verified: the kernel's iptables/nft/pf matching semantics (validated against real netfilter in a namespace in the thorough tier; pf cannot be validated here). Known finding F18 excluded exactly by c03_tproxy_dns_partial; known finding F140 (nat owner MARK rule of a killed session with another owner) is outside the per-plan theorems and reported by the stale-objects dimension.",
         design="DESIGN.md §5 C03",
         technique="Coq proof (sorting + first-match lemmas, per-method walk theorems) + rule-text correspondence + packet-walk oracle on emitted rules"),
     "C10": dict(
